@@ -216,6 +216,31 @@ def depth_field_regression(ctx):
                           {"item": k, "note": "cases: 1100 pg, 1100 cyg, 1025 pg, 1023 pg (in this order)"}, False)
 
 
+KEY_ZERO = "zero-duration-dropped"
+
+
+def known_zero_duration(ctx):
+    """KNOWN FINDING witness: a call whose entry and exit hooks read the same clock value (coarse clock source) and
+    that has no recorded callee is not recorded at all, even without any -t option: mcount_exit_filter_record writes a
+    frame only if end_time - start_time > threshold (strict) or its ENTRY is already written"""
+    h = mch.Harness(ctx)
+    fo = [F.Call(0, 10, 20, [F.Call(1, 12, 12), F.Call(2, 13, 14)])]
+    cfg = {"shape": "pg", "trig": {}}
+    res = mcgen.run_case(h, cfg, F.flatten(fo))
+    defs = "Definition c := %s.\nDefinition full := list_eqb seen_eqb %s (map ideal (flat_map (history 0) %s)).\n" % (
+        mcgen.case_term(cfg, F.flatten(fo), res), mcgen.coq_recs(res["recs"]), F.coq_forest(fo))
+    r = coq.run_cases(ctx, "c02_zero", mcgen.PRE, defs, [("agree", "agree4 c"), ("full", "full")], timeout=600)
+    ctx.case(key="known-zero-duration", tags=["known:zero-duration"], size=6)
+    if r is None:
+        return
+    if r["agree"] != "true":
+        ctx.violation("model and libmcount disagree on the zero-duration witness",
+                      {"cfg": cfg, "forest": [c.to_json() for c in fo]}, False)
+    ctx.known_finding(KEY_ZERO, "a call whose two clock readings are equal is not recorded (witness: main{f1 [12,12]; f2 "
+                      "[13,14]}: %d records instead of 6)" % len(res["recs"]),
+                      still_fails=(r["full"] != "true"), replay={"cfg": cfg, "forest": [c.to_json() for c in fo]})
+
+
 def threads_and_fork(ctx):
     """several threads with interleaved hook calls; a forked child"""
     rng = ctx.rng
@@ -642,6 +667,7 @@ def run(ctx):
     objdir = build.get_build("plain", ctx.log)
     inproc(ctx)
     depth_field_regression(ctx)
+    known_zero_duration(ctx)
     threads_and_fork(ctx)
     e2e(ctx, objdir)
 
